@@ -33,7 +33,7 @@ func (c c14Cfg) name() string {
 const electionKey = "/r/election"
 
 func c14Scenario(c c14Cfg) *mc.Scenario {
-	return &mc.Scenario{Name: c.name(), Body: func(x *mc.X) {
+	return &mc.Scenario{Name: c.name(), TolerateNondet: c.engine != hx.Mem, Body: func(x *mc.X) {
 		kv, release, err := hx.AcquireEngine(c.engine)
 		if err != nil {
 			panic(err)
